@@ -170,6 +170,10 @@ def replay(ctx, v):
         why = c01.session_why(oracle_program, v["case"])
         CL.reset_world()
         return Violation(ID, v["kind"], v["case"], why) if why else None
-    why = oracle_program(v["case"]["steps"], v["case"]["corr"], v["case"].get("change"))
+    why = None
+    for _ in range(6):      # (the library orders sources by random ids: an order-dependent failure shows in some runs only)
+        why = oracle_program(v["case"]["steps"], v["case"]["corr"], v["case"].get("change"))
+        if why:
+            break
     CL.reset_world()
     return Violation(ID, v["kind"], v["case"], why) if why else None
